@@ -19,7 +19,12 @@ M = {
  "c01_count_from_last_orbit_floor": (["C01"], CUST, "for k in range(int(num_motifs)):", "for k in range(int(num_motifs) - (1 if len(motif_indexes) > 2 else 0)):"),
  "c01_diamond_vertex_plus_one": (["C01"], DIA, "edges.append((n0, n2))", "edges.append((n0, n2 + 1))"),
  "c01_jds_copy_truncated": (["C01"], FAST, "EdgeList.joint_degrees = jds", "EdgeList.joint_degrees = [jd for jd in jds if sum(jd) > 0]"),
+ "c01_cached_stubs_keyed_by_N": (["C01"], FAST, "        stubs = [\n            list(chain.from_iterable(starmap(repeat, r)))\n            for r in map(enumerate, zip(*jds))\n        ]\n",
+     "        if getattr(self, '_stub_key', None) != len(jds):\n            self._stub_key = len(jds)\n            self._stub_cache = [list(chain.from_iterable(starmap(repeat, r))) for r in map(enumerate, zip(*jds))]\n        stubs = [list(s) for s in self._stub_cache]\n"),
+ "c01_clique_memo_by_len": (["C01"], R + "/gcmpy/motif_generators/clique_motif.py", "    return list(combinations(vertices, 2))", "    k = len(vertices)\n    if k not in _MEMO:\n        _MEMO[k] = list(combinations(vertices, 2))\n    return _MEMO[k]\n\n\n_MEMO = {}"),
+ "c01_caller_jds_row_zeroed": (["C01"], FAST, "        EdgeList.joint_degrees = jds\n", "        EdgeList.joint_degrees = jds\n        if len(jds) > 2:\n            jds[-1] = tuple(0 for _ in jds[-1])\n"),
  # ---- C02
+ "c02_id_counter_per_topology": (["C02"], FAST, "        gen = self.infinite_sequence()\n\n        # for each topology list ...\n        for k, k_list in enumerate(stubs):\n", "        for k, k_list in enumerate(stubs):\n            gen = self.infinite_sequence()\n"),
  "c02_isinstance_tuple_only": (["C02"], CUST, "isinstance(es[0], (tuple, list))", "isinstance(es[0], tuple)"),
  "c02_id_once_per_type": (["C02"], CUST, "                id = next(gen)\n", "                id = next(gen) if k == 0 else id\n"),
  "c02_ids_by_motif_size": (["C02"], FAST, "EdgeList.motif_id.extend([id] * len(es))", "EdgeList.motif_id.extend([id] * self._motif_sizes[k])"),
